@@ -559,16 +559,20 @@ Proof. intros H. eapply Forall_impl; [|exact H]. cbv beta. intros a [? _]. assum
 (* ------------------------------------------------------------------ *)
 (* (1) the name layer *)
 
-Theorem name_layer_full : forall dom body,
+(* the same with the three strings spelled out: the name is the labels of the body followed by the labels of the domain, the
+   wire form is those labels, and what the DNS library hands to the server is their escaped presentation form *)
+Theorem name_layer_explicit : forall dom body,
   dom_ok dom = true -> wire_ok body = true -> body <> [] ->
   fits_len (length body) (length dom) = true ->
-  exists name w name',
+  let ls := body_labels body ++ split_dots dom [] in
+  let name := name_of ls in let w := wire_of_labels ls ++ [0] in let name' := escaped_name ls in
+    (Forall label_ok ls /\ (length name <= 251)%nat) /\
     prepare_hostname body dom = Ok name /\ pack_name name = Ok w /\ unpack_name w = Ok name' /\
     strip_domain name' dom = Ok body /\
     Forall (fun l => (length l <= 63)%nat) (name_labels name) /\ (name_total name <= 253)%nat /\
     (forall qt, qt < 65536 -> exists q, pack_question name qt = Ok q /\ unpack_question q = Ok (name', qt)).
 Proof.
-  intros dom body Hdom Hbody Hne Hfit.
+  intros dom body Hdom Hbody Hne Hfit. cbv zeta.
   destruct (dom_ok_facts dom Hdom) as (Hdl & Hdls).
   destruct (wire_ok_facts body Hbody) as (Hplain & Hlt).
   assert (Hblen : (1 <= length body)%nat) by (destruct body; [congruence | cbn; lia]).
@@ -610,8 +614,8 @@ Proof.
     - rewrite forallb_app in Hc. apply andb_prop in Hc. destruct Hc as [_ Hx]. cbn in Hx.
       rewrite andb_true_r in Hx. destruct (dom_char_facts x Hx) as (? & _ & ? & _). split; assumption. }
   destruct Hlast as (s & x & Es & Hx & Hxb).
-  exists (name_of ls), (wire_of_labels ls ++ [0]), (escaped_name ls).
-  split; [|split; [|split; [|split; [|split; [|split]]]]].
+  fold bl dl ls.
+  split; [split; assumption|]. split; [|split; [|split; [|split; [|split; [|split]]]]].
   - unfold prepare_hostname. fold d. rewrite Ename.
     destruct (Nat.ltb_spec (hostname_maxlen - 2) (length (name_of ls))) as [H|_]; [unfold hostname_maxlen in H; lia | reflexivity].
   - eapply pack_name_labels; eassumption.
@@ -629,6 +633,20 @@ Proof.
     + eapply Forall_impl; [|exact Hls_ok]. cbv beta. intros l [H _]. apply plain_nodot, H.
   - rewrite name_total_name_of by assumption. lia.
   - intros qt Hq. eapply question_labels; try eassumption. lia.
+Qed.
+
+Theorem name_layer_full : forall dom body,
+  dom_ok dom = true -> wire_ok body = true -> body <> [] ->
+  fits_len (length body) (length dom) = true ->
+  exists name w name',
+    prepare_hostname body dom = Ok name /\ pack_name name = Ok w /\ unpack_name w = Ok name' /\
+    strip_domain name' dom = Ok body /\
+    Forall (fun l => (length l <= 63)%nat) (name_labels name) /\ (name_total name <= 253)%nat /\
+    (forall qt, qt < 65536 -> exists q, pack_question name qt = Ok q /\ unpack_question q = Ok (name', qt)).
+Proof.
+  intros dom body H1 H2 H3 H4.
+  destruct (name_layer_explicit dom body H1 H2 H3 H4) as (_ & H).
+  eexists; eexists; eexists; exact H.
 Qed.
 
 Theorem name_layer_wire : forall dom body,
